@@ -138,7 +138,14 @@ def lif(c):
     c.setattr(A, "dt", dt1)
     c.ensure("dt:reports_back", same(c.getattr(A, "dt"), dt1))
     c.ensure("dt:batch_unchanged", same(c.getattr(A, "batchsz"), b0))
+    # dirty state first: the batch-size setter must leave EVERY sample (kept or new) in the rest state a fresh
+    # component of that batch size starts from
+    A.fields["_voltage__data"] = c.pw("V_dirty", "float", eshape=A.fields["_voltage__data"].eshape)
+    A.fields["_refrac__data"] = c.pw("R_dirty", "float", eshape=A.fields["_refrac__data"].eshape)
     c.setattr(A, "batchsz", b1)
+    from pyvc import tensor as _tz
+
+    c.ensure("batchsz:every_sample_at_rest_like_a_fresh_component", z3.And(_tz.coerce(c.getattr(A, "voltage").f, "float") == -60, _tz.coerce(c.getattr(A, "refrac").f, "float") == 0))
     c.ensure("batchsz:reports_back", same(c.getattr(A, "batchsz"), b1))
     c.ensure("batchsz:dt_unchanged", same(c.getattr(A, "dt"), dt1))
     B = c.call(cv, (3,), dt1, batch_size=b1, **kw)
@@ -202,6 +209,7 @@ ASSUMPTIONS = [
 ]
 
 MUTANTS = [
+    dict(file=NB, func="InfernoNeuron.batchsz@setter", old="        BatchShapeMixin.batchsz.fset(self, value)\n        self.clear()", new="        self.clear()\n        BatchShapeMixin.batchsz.fset(self, value)", contracts=["LIF[setters_vs_constructor]"], name="seed C11d: neuron state cleared BEFORE the batch resize (new samples start at 0 V instead of rest)"),
     dict(file=NB, func="Connection.synapse@setter", old="self.synapse_ = value", new="self.synapses = value", contracts=["Connection[setters_delegate_to_the_synapse]"], name="D13 regression"),
     dict(file=NB, func="Connection.batchsz@setter", old="self.synapse.batchsz = value", new="pass", contracts=["Connection[setters_delegate_to_the_synapse]"]),
     dict(file=NMX, func="DelayedMixin.delay@setter", old="getattr(self, cstr).duration = value", new="getattr(self, cstr).duration = value + self.__step_time", contracts=["DeltaCurrent[setters_vs_constructor]", "SingleExponentialCurrent[setters_vs_constructor]"], name="D11 regression: delay setter oversizes records"),
